@@ -1,6 +1,7 @@
 package rig
 
 import (
+	"bufio"
 	"crypto/sha256"
 	"encoding/hex"
 	"fmt"
@@ -181,4 +182,11 @@ func CType(r, v int) string { return fmt.Sprintf("application/x-verif; r=%d; v=%
 // LastMod derives a Last-Modified date from the version (one second per version, fixed epoch).
 func LastMod(v int) string {
 	return time.Date(2020, 1, 1, 0, 0, 0, 0, time.UTC).Add(time.Duration(v) * time.Second).Format(http.TimeFormat)
+}
+
+func (s *statusWriter) Hijack() (net.Conn, *bufio.ReadWriter, error) {
+	if s.status == 0 {
+		s.status = -1 // raw response written by the script
+	}
+	return s.ResponseWriter.(http.Hijacker).Hijack()
 }
